@@ -214,6 +214,8 @@ def stereo_mol_graph_to_rdmol(
                 idx_map_num_dict[a.GetIdx()]
                 for a in mol.GetAtomWithIdx(atom_idx).GetNeighbors()
             ])
+            # a lone pair (None) comes last, as in the import from rdkit
+            rd_nbrs = rd_nbrs + (None,) * (4 - len(rd_nbrs))
 
             if a_stereo.parity is None:
                 rd_stereo = Chem.rdchem.ChiralType.CHI_TETRAHEDRAL
